@@ -46,7 +46,8 @@ class Arr(NdArr):
     def z_binop(self, it, op, other, swapped):
         import operator
 
-        f = {ast.Add: operator.add, ast.Sub: operator.sub, ast.Mult: operator.mul, ast.Div: operator.truediv, ast.Pow: operator.pow}.get(op)
+        f = {ast.Add: operator.add, ast.Sub: operator.sub, ast.Mult: operator.mul, ast.Div: operator.truediv, ast.Pow: operator.pow,
+             ast.MatMult: operator.matmul}.get(op)
         if f is None:
             return NotImplemented
         o = other.a if isinstance(other, NdArr) else other
@@ -155,10 +156,24 @@ def ext_table(w):
         out.a = r
         return out
 
+    def xround(it, args, kwargs):
+        x = args[0]
+        if _conc(x):
+            return np.round(x)
+        # rounding of a symbolic value: an uninterpreted (integer-valued) function of it
+        if isinstance(x, Sym):
+            return uf_real("round", [x])
+        a = _rows(x)
+        out = Arr(a.shape)
+        flat = out.a.reshape(-1)
+        for k, v in enumerate(a.reshape(-1)):
+            flat[k] = uf_real("round", [v]) if isinstance(v, Sym) else float(np.round(v))
+        return out
+
     t = dict(NUM_EXT)
     t.update({
         "xp.arange": _np_pass("arange"), "xp.meshgrid": _np_pass("meshgrid"), "xp.stack": _np_pass("stack"),
-        "xp.permute_dims": _np_pass("transpose"), "xp.round": _np_pass("round"), "xp.linalg.inv": _np_pass("inv", np.linalg.inv),
+        "xp.permute_dims": _np_pass("transpose"), "xp.round": xround, "xp.linalg.inv": _np_pass("inv", np.linalg.inv),
         "xp.linalg.norm": norm, "xp.exp": elementwise("exp"), "xp.cos": elementwise("cos"), "erfc": elementwise("erfc"),
         "xp.special.erfc": elementwise("erfc"), "xp.sum": xsum, "float": lambda it, a, k: a[0] if isinstance(a[0], Sym) else float(a[0]),
         "math.log": _np_pass("log"), "math.sqrt": _np_pass("sqrt"),
@@ -433,6 +448,7 @@ class ParameterIndependence:
                 "gcut=3,gamma=1e-10": _native_E(a, pos, Z, gcut=3, gamma=1e-10),
                 "gcut=2.5": _native_E(a, pos, Z, gcut=2.5),
                 "atom 0 moved by a lattice vector": _native_E(a, pos + np.array([[1, -2, 1]] + [[0, 0, 0]] * (nat - 1)) @ a, Z),
+                "atom 0 moved by several lattice vectors": _native_E(a, pos + np.array([[3, -4, 2]] + [[0, 0, 0]] * (nat - 1)) @ a, Z),
                 "dilation by 1.3 (times 1.3)": 1.3 * _native_E(1.3 * a, 1.3 * pos, Z),
                 "2x1x1 supercell (half)": 0.5 * _native_E(a * np.array([[2], [1], [1]]), np.vstack([pos, pos + a[0]]), np.concatenate([Z, Z])),
             }
